@@ -215,13 +215,13 @@ CHECKS["C15"] = dict(
   design_ref="DESIGN.md section 8 (C15), 7 (B5)")
 CHECKS["C16"] = dict(
   category="exploration",
-  text="As C15 for Decimal / UnsignedDecimal / NegativeDecimal: per parameter tuple (ranges x fraction-length bounds x is_extensible) "
+  text="As C15 for Decimal / UnsignedDecimal / NegativeDecimal / PositiveDecimal (non-extensible; sign rule of PositiveInteger): per parameter tuple (ranges x fraction-length bounds x is_extensible) "
        "the emitted language in every context equals 'integer part of the corresponding Integer pattern (or none when start is 0) . "
        "min..max digits'. Argument validation proved by VCs over __Decimal.__init__ and the four public constructors (all integers "
        "and argument kinds, exceptions iff documented), and for ALL parameters the emitted pattern IS (the corresponding Integer "
        "pattern | the reference text for a missing integer part, only when start == 0) + '.' + Numeral(10, min, max) - a chain of "
-       "operations under contract. PositiveDecimal / include_sign: structure proved likewise; their language is not decided (the "
-       "sign rules are not documented precisely).",
+       "operations under contract. Extensible PositiveDecimal / NegativeDecimal and include_sign: structure proved likewise; their "
+       "language is not decided (the sign rules of the extensible forms are not documented precisely).",
   note=LANGNOTE, technique="per-parameter complete language decision of the emitted pattern, labelled bounded in the parameters",
   design_ref="DESIGN.md section 8 (C16)")
 CHECKS["C17"] = dict(
